@@ -2,6 +2,7 @@ package wasi_snapshot_preview1
 
 import (
 	"context"
+	"math"
 	"time"
 
 	"github.com/tetratelabs/wazero/api"
@@ -60,6 +61,13 @@ func pollOneoffFn(_ context.Context, mod api.Module, params []uint64) sys.Errno 
 	}
 
 	mem := mod.Memory()
+
+	// The subscriptions (48 bytes each) and the events (32 bytes each) are
+	// addressed with 32-bit offsets. A count whose byte size overflows uint32
+	// cannot fit in memory: fail before the products below wrap around.
+	if nsubscriptions > math.MaxUint32/48 {
+		return sys.EFAULT
+	}
 
 	// Ensure capacity prior to the read loop to reduce error handling.
 	inBuf, ok := mem.Read(in, nsubscriptions*48)
